@@ -575,26 +575,47 @@ theorem extInit_is_init (cfg : Cfg) (d : Dictionary) (o : Options) (out : Output
 
 /-- every declared name of an accepted dictionary is a well-formed Go identifier (`goIdent`: non-empty,
     ASCII letters, digits and `_`, not starting with a digit — in particular `lexesAsIdent`), the method's
-    name being `<value type>.String`.  For the constants of external attributes this needs the name of the
-    `-ref` option not to normalise to something that starts with a digit (part of `extWellFormed`). -/
-theorem names_wellformed (d : Dictionary) (o : Options) (out : Output) (h : generate Cfg.repaired d o = .ok out)
-    (hr : ∀ r ∈ o.refs, lexesAsIdent (identifier r.1) = true) :
+    name being `<value type>.String`.  No hypothesis on the `-ref` options: the model refuses (`Err.format`,
+    as go/format does) a `-ref` name that normalises to something starting with a digit as soon as a VALUE
+    is declared for it, and without a VALUE nothing is declared under that name. -/
+theorem names_wellformed (d : Dictionary) (o : Options) (out : Output) (h : generate Cfg.repaired d o = .ok out) :
     ∀ dc ∈ out.decls, declNameOK dc :=
-  Gen.names_ok' h hr
+  Gen.names_ok' h
 
 theorem goIdent_lexes (n : Bytes) (h : goIdent n = true) : lexesAsIdent n = true := by
   simp only [goIdent, Bool.and_eq_true] at h
   exact h.1.2
 
 example : ∀ r ∈ witnessOpts.refs, lexesAsIdent (identifier r.1) = true := by decide
-example := names_wellformed _ _ _ witness_ok (by decide)
+example := names_wellformed _ _ _ witness_ok
 
-/-- the hypothesis cannot be dropped — a GAP OF THE MODEL, not of the Go code: for `-ref -1=…` with a
-    `VALUE -1 x 1` the model accepts and lists a constant named `1_Value_X`, whereas Go emits that text and
-    go/format refuses it (Generate returns an error; observed on the working tree).  The format gate of the
-    model covers the dictionary's own attributes only. -/
-example : (match generate Cfg.repaired { values := [⟨bs "-1", bs "x", 1⟩] } ⟨[], [(bs "-1", bs "example.com/q")]⟩ with
-    | .ok out => out.decls.any (fun dc => dc.name == bs "1_Value_X" && !goIdent dc.name)
+/-- the format gate on `-ref` names, as observed on the Go side (dictionarygen.Generator.Generate with
+    `ExternalAttributes = {NAME: "some/pkg"}` and one `VALUE NAME x 1`): `-ref -1=…` emits
+    `1_Strings[1_Value_X] = "x"` / `1_Value_X 1 = 1`, which go/format refuses … -/
+example : generate Cfg.repaired { values := [⟨bs "-1", bs "x", 1⟩] } ⟨[], [(bs "-1", bs "example.com/q")]⟩
+    = .error .format := by decide
+example : generate Cfg.asIs { values := [⟨bs "-1", bs "x", 1⟩] } ⟨[], [(bs "-1", bs "example.com/q")]⟩
+    = .error .format := by decide
+example : generate Cfg.repaired { values := [⟨bs "_1", bs "x", 1⟩] } ⟨[], [(bs "_1", bs "example.com/q")]⟩
+    = .error .format := by decide
+/-- … an ordinary `-ref` is accepted, with its constant and its dot import … -/
+example : (match generate Cfg.repaired { values := [⟨bs "Ok-Name", bs "x", 1⟩] } ⟨[], [(bs "Ok-Name", bs "example.com/q")]⟩ with
+    | .ok out => out.decls.any (fun dc => dc.name == bs "OkName_Value_X" && goIdent dc.name)
+        && out.imports == [Imp.dot (bs "example.com/q")]
+    | .error _ => false) = true := by decide
+/-- … so are names whose FIRST byte is a digit (`1` ↦ `One`, `3Com` ↦ `ThreeCom`) … -/
+example : (match generate Cfg.repaired { values := [⟨bs "1", bs "x", 1⟩, ⟨bs "3Com", bs "x", 1⟩] }
+      ⟨[], [(bs "1", bs "example.com/q"), (bs "3Com", bs "example.com/r")]⟩ with
+    | .ok out => out.decls.any (fun dc => dc.name == bs "One_Value_X") && out.decls.any (fun dc => dc.name == bs "ThreeCom_Value_X")
+    | .error _ => false) = true := by decide
+/-- … a name that normalises to the EMPTY identifier (`-ref -=…`: `_Strings[_Value_X] = "x"`, `_Value_X = 1`
+    are Go) … -/
+example : (match generate Cfg.repaired { values := [⟨bs "-", bs "x", 1⟩] } ⟨[], [(bs "-", bs "example.com/q")]⟩ with
+    | .ok out => out.decls.any (fun dc => dc.name == bs "_Value_X" && goIdent dc.name)
+    | .error _ => false) = true := by decide
+/-- … and `-ref -1=…` when no VALUE line refers to it (only `func init() {}` and `const ()` are emitted) -/
+example : (match generate Cfg.repaired {} ⟨[], [(bs "-1", bs "example.com/q")]⟩ with
+    | .ok out => out.decls == [⟨.func, .extInit, bs "init", [], []⟩] && out.imports == []
     | .error _ => false) = true := by decide
 
 /-! ### exported_names: what is exported and what is private -/
